@@ -258,7 +258,7 @@ func (a *List) DelItem(i int) {
 // Removes items from a list
 func (a *List) M__delitem__(key Object) (Object, error) {
 	if slice, ok := key.(*Slice); ok {
-		start, stop, step, _, err := slice.GetIndices(len(a.Items))
+		start, stop, step, slicelength, err := slice.GetIndices(len(a.Items))
 		if err != nil {
 			return nil, err
 		}
@@ -268,10 +268,12 @@ func (a *List) M__delitem__(key Object) (Object, error) {
 			}
 			a.Items = append(a.Items[:start], a.Items[stop:]...)
 		} else {
-			j := 0
-			for i := start; i < stop; i += step {
-				a.DelItem(i - j)
-				j++
+			if step < 0 {
+				// delete the same indices in ascending order
+				start, step = start+(slicelength-1)*step, -step
+			}
+			for j := 0; j < slicelength; j++ {
+				a.DelItem(start + j*step - j)
 			}
 		}
 	} else {
